@@ -12,7 +12,7 @@ from vk.props.c09 import structural, canon_circuit
 from vk.props.c19 import LIBS
 
 ID = 'C10'
-RULE = ('Part cells (complete enumeration): every cell of the five built-in libraries x 4 connection variants (all pins connected; every second '
+RULE = ('Part hand (complete enumeration): six hand-wired implementations (fork chains before a port, a port read inside that also drives another port, several ports on one fork, cell-kind ports read inside, edited in place) x every non-empty subset of connected instance outputs x {as is, copy, pickle}: structure valid, ports kept, truth table as the implementation computes. Part cells (complete enumeration): every cell of the five built-in libraries x 4 connection variants (all pins connected; every second '
         'input open; first output open; only the first input and last output connected) instantiated alone between port cells, then '
         'resolve_tlib_cells: must succeed, keep the port list, give a structurally valid circuit, and the truth table over ports and state elements '
         '(all combinations) must equal the stand-alone simulation of the implementation circuit with unconnected inputs reading 0, '
@@ -476,6 +476,72 @@ def prop_hub(case):
     return Obs(True, ['fanout>255' if case['fanout'] < 65536 else 'fanout>65535'], checks=3 * case['fanout'])
 
 
-PARTS = [Part('hub', prop_hub, enumerate=enum_hub, quick=(2, 0), thorough=(4, 0)),
+HAND = {   # hand-wired implementations of vk/props/c09.py: (constructor, variant, number of inputs, function per output port in port order)
+    'hand1': ('handmade_impl', None, 2, [lambda a, b: 1 - (a & b), lambda a, b: 1 - (a & b)]),
+    'hand2': ('handmade_impl2', None, 2, [lambda a, b: 1 - (a | b), lambda a, b: a | b, lambda a, b: 1 - (a | b)]),
+    'hand3': ('handmade_impl3', None, 2, [lambda a, b: 1 - (a ^ b), lambda a, b: a ^ b, lambda a, b: a ^ b, lambda a, b: a ^ b]),
+    'hand4_0': ('handmade_impl4', 0, 1, [lambda a: a, lambda a: 1 - a, lambda a: 1 - a]),
+    'hand4_1': ('handmade_impl4', 1, 1, [lambda a: a, lambda a: 1, lambda a: 1]),
+    'hand4_2': ('handmade_impl4', 2, 1, [lambda a: a, lambda a: 1 - a, lambda a: 1]),
+}
+
+
+def enum_hand(tier):
+    """implementations wired by hand through the API (fork chains before a port, a port that is read inside and drives another port directly,
+    several ports on one fork, cell-kind ports read inside, edited in place) x every subset of connected instance outputs x {as is, copy, pickle}"""
+    for name, (_, _, _, fns) in sorted(HAND.items()):
+        for mask in range(1, 1 << len(fns)):
+            for how in ('asis', 'copy', 'pickle'):
+                yield dict(impl=name, mask=mask, how=how)
+
+
+def prop_hand(case):
+    from kyupy.circuit import Circuit, Node, Line
+    from kyupy.logic_sim import LogicSim
+    import vk.props.c09 as c09
+    ctor, variant, n_in, fns = HAND[case['impl']]
+    impl = getattr(c09, ctor)() if variant is None else getattr(c09, ctor)(variant)
+    before = canon_circuit(impl)
+    c = Circuit('parent')
+    ins = []
+    for k in range(n_in):
+        p = Node(c, f'i{k}', 'input'); c.io_nodes.append(p); ins.append(p)
+    u = Node(c, 'u', 'MYCELL')
+    for k, p in enumerate(ins):
+        Line(c, p, (u, k))
+    outs = []
+    for k in range(len(fns)):
+        if (case['mask'] >> k) & 1:
+            o = Node(c, f'o{k}', 'output'); c.io_nodes.append(o); outs.append(k)
+            Line(c, (u, k), o)
+    ports = [n.name for n in c.io_nodes]
+    c.substitute(u, impl)
+    structural(c, f'after substitute(u, {case["impl"]}) with outputs {outs} connected')
+    if canon_circuit(impl) != before:
+        raise Violation(f'substitute modified the implementation circuit {case["impl"]}')
+    if [n.name for n in c.io_nodes] != ports:
+        raise Violation(f'substitute changed the port list: {[n.name for n in c.io_nodes]} vs {ports}')
+    if case['how'] == 'copy': c = c.copy()
+    elif case['how'] == 'pickle': c = pickle.loads(pickle.dumps(c))
+    npat = 1 << n_in
+    sim = LogicSim(c, npat, m=2)
+    mv = np.zeros((sim.s_len, npat), dtype=np.uint8)
+    for k in range(n_in):
+        mv[k] = [3 * ((p >> k) & 1) for p in range(npat)]
+    sim.s[0] = pack_bp(mv)
+    sim.s_to_c(); sim.c_prop(); sim.c_to_s()
+    res = unpack_bp(sim.s[1], npat)
+    for j, k in enumerate(outs):
+        for p in range(npat):
+            args = [(p >> i) & 1 for i in range(n_in)]
+            want = 3 * fns[k](*args)
+            if int(res[n_in + j, p]) != want:
+                raise Violation(f'{case["impl"]} substituted with outputs {outs} connected ({case["how"]}): port o{k} = {int(res[n_in + j, p])} for inputs {args}, '
+                                f'the implementation computes {want}')
+    return Obs(len(outs) < len(fns) or case['how'] != 'asis', [case['impl'], case['how']], checks=len(outs) * npat)
+
+
+PARTS = [Part('hand', prop_hand, enumerate=enum_hand, quick=(2, 0), thorough=(2, 0)),
+         Part('hub', prop_hub, enumerate=enum_hub, quick=(2, 0), thorough=(4, 0)),
          Part('cells', prop_cells, enumerate=enum_cells, quick=(8, 0), thorough=(16, 0)),
          Part('hier', prop_hier, strategy=hier_cases, quick=(8, 400), thorough=(16, 12000))]
